@@ -125,8 +125,13 @@ pub trait Record {
 
         match self.alignment_span() {
             Some(Ok(span)) => {
-                let end = usize::from(start) + span - 1;
-                Position::new(end).map(Ok)
+                match usize::from(start).checked_add(span - 1) {
+                    Some(end) => Position::new(end).map(Ok),
+                    None => Some(Err(io::Error::new(
+                        io::ErrorKind::InvalidData,
+                        "invalid alignment end",
+                    ))),
+                }
             }
             Some(Err(e)) => Some(Err(e)),
             None => Some(Ok(start)),
